@@ -134,6 +134,12 @@ pub fn peek_raw(m: &MemoryAreas, addr: u16) -> u8 {
   }
 }
 
+/// which register vectors run with an OAM DMA armed (a function of the vector, so a case is
+/// reproducible from its registers alone)
+pub fn dma_armed_for(c: &Cpu) -> bool {
+  (c.a ^ c.l ^ (c.sp as u8) ^ (c.sp >> 8) as u8 ^ c.b) & 3 == 3
+}
+
 impl StepWorld {
   pub fn new() -> StepWorld {
     let mut rom = vec![0u8; 0x8000];
@@ -204,6 +210,13 @@ impl StepWorld {
     r.sp = c.sp as u32;
     r.ip = c.pc as u32;
     r.cycles = 0;
+    // a quarter of the register vectors meet an OAM DMA that has just been armed through the
+    // bus: nothing inside one instruction clocks the devices, so its effect is the same
+    if dma_armed_for(c) {
+      crate::mem::memory_write_byte(&mut self.core.memory as *mut MemoryAreas, 0xFF46, BASE_DMA_PAGE);
+    } else {
+      self.core.memory.oam_dma = None;
+    }
   }
 
   /// Run R1 from `c` on the overlay bus (real memory untouched).
